@@ -730,6 +730,9 @@ class TFLiteSupportedOperators:
             # Valid if IFM W and H are both 1, or IFM and OFM shape are the same
             if ((ifm_shape_h == 1) and (ifm_shape_w == 1)) or (ifm_shape == ofm_shape):
                 valid = True
+            elif align_corners and (ifm_shape_h == 1 or ifm_shape_w == 1):
+                # With aligned corners a single row or column has no defined scale factor
+                valid = False
             else:
                 # Valid if OFM is 2/4/8x IFM (-1 for align corners)
                 if align_corners:
